@@ -41,7 +41,8 @@ def list_page(keys, p, after, limit):
 
 
 def go_clean(path):
-    """path.Clean, written after the Go source (lazybuf indices), independent of the Lean transliteration"""
+    """path.Clean, written after the Go source (lazybuf indices). The repaired raft code no longer calls filepath.Join;
+    this stays only to recognise the inputs of the former findings F4/F9/F40 should they ever deviate again."""
     if path == b"":
         return b"."
     rooted = path[0] == 0x2f
@@ -157,10 +158,6 @@ class KVStream(Stream):
                         if parts[0] in ("lview", "bview"):
                             logical_top = True
                 store, txn = {}, None
-            elif name == "join":
-                exp = "j:" + (go_join(unhex(f[1]), unhex(f[2])).hex() or "-")
-                if impl != exp:
-                    fail(i, "filepath.Join differs from the reference Clean: expected %s" % exp, "join-reference")
             elif name == "put":
                 if impl == "ok":
                     cur[P + unhex(f[1])] = unhex(f[2])
@@ -260,7 +257,7 @@ class KVSdk(KVStream):
             "order corner cases (- . / 0 a ~, 2/3-byte UTF-8, keys that are prefixes, trailing-slash keys, '.'/'..'/empty "
             "segments, NUL, invalid UTF-8, boundary lengths), ops put/get/del/list/page/begin/commit/rollback/scan/"
             "collect/clear/rawput/rawdel/dump; after in {existing, non-existent, '.', '..', with '/', with '..'}, limits "
-            "-7..1000; 3000 filepath.Join probes; non-trivial = non-error result; distinct = distinct op line")
+            "-7..1000; non-trivial = non-error result; distinct = distinct op line")
 
 
 class KVRaft(KVStream):
@@ -284,20 +281,17 @@ class C13(PropCheck):
     streams = [KVSdk(), KVRaft()]
     level_text = ("Lean theorems over implementation-shaped models (Obao/Model/Listing.lean) against a sorted-map specification "
                   "(Obao/Model/SortedKV.lean), all for every store / prefix / after / limit / operation sequence: "
-                  "inmem_list_eq_spec, file_list_eq_spec (full); fsm_list_eq_spec_partial, rafttxn_list_eq_spec_partial and "
-                  "rafttxn_list_pending_eq_spec_partial (raft listPageInner and RaftTransaction.ListPage incl. the merge of pending "
-                  "puts/deletes, under the exact side condition 'cursor start inside the prefix interval and <= prefix+after'), "
-                  "raft_list_eq_spec_clean (that condition holds for slash-terminated prefixes and previously returned entries, "
-                  "through a transliteration of filepath.Clean/Join), fsm_list_eq_spec_fixed (seek = prefix+after is right for all "
-                  "inputs), counterexample theorems for F4/F9/F9b/F13; kv_refines_map, kv_keys_sorted, cache_coherent (arbitrary "
-                  "evictions), view_confined, paged_concat_eq_full, scan_visits_exactly (termination + each key exactly once, page "
-                  "size >= 2). Models tied to the Go code by two differential streams over random layer stacks on every run; the "
-                  "contract itself is evaluated on every implementation output")
+                  "inmem_list_eq_spec, file_list_eq_spec, fsm_list_eq_spec, rafttxn_list_eq_spec (full: raft listPageInner and "
+                  "RaftTransaction.ListPage seek to prefix+after since the repair of F4/F9/F40); rafttxn_list_pending_eq_spec_partial "
+                  "(merge of pending puts/deletes = listing of the overlaid store, except a pending put of the key equal to the prefix: "
+                  "F41, with rafttxn_pending_empty_child_cex); kv_refines_map, kv_keys_sorted, cache_coherent (arbitrary evictions), "
+                  "view_confined, view_get_key_roundtrip, paged_concat_eq_full, scan_visits_exactly / scan_inmem_ / scan_raft_ "
+                  "(termination + each key exactly once, page size >= 2). Models tied to the Go code by two differential streams over "
+                  "random layer stacks on every run; the contract itself is evaluated on every implementation output")
     level_note = ("trusted: Lean kernel; hand-written models and their differential tie; go-radix / bbolt / sorted directory names "
-                  "modelled as a strictly sorted key list; filepath.Clean transliterated (compared on its own 'join' ops); raft "
-                  "theorems are _partial because the unchanged code violates the full statements (F4, F9, F9b, F13 reproduced on "
-                  "every run, listed in known_findings.json); file backend driven with admissible keys only; transaction commit "
-                  "logic is C08's subject")
+                  "modelled as a strictly sorted key list; one theorem is _partial because the unchanged code violates the full "
+                  "statement (F41, reproduced on every run, listed in known_findings.json); the predicates of the repaired findings "
+                  "F4/F9/F40/F42 stay armed; file backend driven with admissible keys only; transaction commit logic is C08's subject")
     technique = "Lean 4 theorems (induction over sorted key lists, invariants) + differential correspondence on layer stacks"
     assumptions = ["go-radix WalkPrefix, bbolt cursors and sorted directory names enumerate keys in bytewise order",
                    "file backend driven only with keys it stores faithfully (DESIGN C13 'Admissible keys')",
